@@ -38,6 +38,7 @@ type CLIInput struct {
 	Fault    string `json:"fault,omitempty"`   // truncate | empty | flip | garbage_prefix | garbage_suffix | missing | directory | newline_variants
 	FaultArg int    `json:"fault_arg,omitempty"`
 	Chunks   []int  `json:"chunks,omitempty"` // stdin chunk plan (cycled); empty = one shot
+	StdinKind string `json:"stdin_kind,omitempty"` // "" = pipe written in chunks | file = a regular file opened as descriptor 0 | devnull = the null device (what cron, systemd and os/exec hand to a child by default)
 }
 
 type CLIStep struct {
@@ -142,7 +143,10 @@ func genCLI(seed uint64, prop, tier, mode string) *Plan {
 	}
 	// configurations for -config
 	if g.Chance(0.5) {
-		c := genCfg(g, meta, pick(g, []string{"option", "option", "neutral", "example"}))
+		c := genCfg(g, meta, pick(g, []string{"option", "option", "neutral", "example", "illtyped", "illtyped"}))
+		if c.Ill != "" && isProbeName(c.Ill) {
+			c = genCfg(g, meta, "neutral")
+		}
 		// the CLI binary has no probe lints: keep real targets only
 		ok := true
 		for _, t := range c.Targets {
@@ -153,7 +157,11 @@ func genCLI(seed uint64, prop, tier, mode string) *Plan {
 		if ok && tomlOK(c.Text) {
 			p.Cfgs = append(p.Cfgs, c)
 			// objects on which a named configurable lint gives a verdict
-			for _, t := range c.Targets {
+			aim := append([]string(nil), c.Targets...)
+			if c.Ill != "" {
+				aim = append(aim, c.Ill)
+			}
+			for _, t := range aim {
 				t := t
 				if o := pickClass(g, func(e *corpusClassEntry) bool { return inList(e.Conf, t) && e.Kind != KOCSP }); o != nil && g.Chance(0.7) {
 					p.Objects = append(p.Objects, *o)
@@ -280,8 +288,12 @@ func genCLI(seed uint64, prop, tier, mode string) *Plan {
 		// a step aimed at the interplay of -config and selection: the selection keeps a lint the
 		// configuration names, the input is an object on which that lint has a verdict
 		cfgAimed := -1
-		if si == 1 && len(p.Cfgs) > 0 && len(p.Cfgs[0].Targets) > 0 {
-			T := pick(g, p.Cfgs[0].Targets)
+		if si == 1 && len(p.Cfgs) > 0 && (len(p.Cfgs[0].Targets) > 0 || p.Cfgs[0].Ill != "") {
+			// (a section that cannot be applied makes exactly that lint fatal: a run whose only finding is a fatal one)
+			T := p.Cfgs[0].Ill
+			if T == "" || (len(p.Cfgs[0].Targets) > 0 && g.Chance(0.4)) {
+				T = pick(g, p.Cfgs[0].Targets)
+			}
 			for oi := range p.Objects {
 				if oi >= nObj { // appended by the configuration bias above
 					cfgAimed = oi
@@ -309,6 +321,16 @@ func genCLI(seed uint64, prop, tier, mode string) *Plan {
 					}
 				}
 				st.Sel = o
+				if p.Cfgs[0].Ill != "" && g.Chance(0.6) {
+					switch g.Intn(3) {
+					case 0:
+						st.Summary, st.Long = true, false
+					case 1:
+						st.Summary, st.Long = false, true
+					default:
+						st.Summary, st.Long, st.Pretty = true, true, g.Chance(0.3)
+					}
+				}
 			}
 		}
 		// ---- inputs
@@ -341,6 +363,15 @@ func genCLI(seed uint64, prop, tier, mode string) *Plan {
 					in.Chunks = []int{512}
 				case 3:
 					in.Chunks = []int{g.Range(2, 64)}
+				}
+				// what descriptor 0 is: a pipe (default), a regular file, or the null device
+				switch g.Intn(12) {
+				case 0, 1:
+					in.StdinKind, in.Chunks = "file", nil
+				case 2:
+					if !faultFree {
+						in.StdinKind, in.Chunks = "devnull", nil
+					}
 				}
 			} else {
 				switch enc {
@@ -397,6 +428,9 @@ func genCLI(seed uint64, prop, tier, mode string) *Plan {
 						in.Fault = "empty"
 					}
 				}
+			}
+			if in.StdinKind == "devnull" {
+				in.Fault, in.FaultArg = "empty", 0 // nothing can be read from the null device
 			}
 			st.Inputs = append(st.Inputs, in)
 		}
@@ -507,7 +541,7 @@ type cliOutcome struct {
 
 func zlintBinary() string { return filepath.Join(verifRoot(), "bin", "zlint") }
 
-func runZlint(args []string, stdin []byte, chunks []int, useStdin bool, dir string) cliOutcome {
+func runZlint(args []string, stdin []byte, chunks []int, useStdin bool, stdinKind string, dir string) cliOutcome {
 	ctx, cancel := context.WithTimeout(context.Background(), 60*time.Second)
 	defer cancel()
 	cmd := exec.CommandContext(ctx, zlintBinary(), args...)
@@ -516,6 +550,22 @@ func runZlint(args []string, stdin []byte, chunks []int, useStdin bool, dir stri
 	var out, errb bytes.Buffer
 	cmd.Stdout, cmd.Stderr = &out, &errb
 	var w *os.File
+	switch {
+	case useStdin && stdinKind == "devnull":
+		useStdin = false // os/exec hands the child the null device as descriptor 0
+	case useStdin && stdinKind == "file":
+		fp := filepath.Join(dir, "stdin-as-file")
+		if err := os.WriteFile(fp, stdin, 0o644); err != nil {
+			return cliOutcome{Exit: -1, Stderr: "stdin file: " + err.Error()}
+		}
+		f, err := os.Open(fp)
+		if err != nil {
+			return cliOutcome{Exit: -1, Stderr: "stdin file: " + err.Error()}
+		}
+		defer f.Close()
+		cmd.Stdin = f
+		useStdin = false
+	}
 	if useStdin {
 		r, ww, err := os.Pipe()
 		if err != nil {
@@ -845,6 +895,7 @@ func runCLI(p *Plan, keepLog bool) *RunResult {
 		var stdinBytes []byte
 		var stdinChunks []int
 		useStdin := false
+		stdinKind := ""
 		for k := range st.Inputs {
 			in := &st.Inputs[k]
 			o := &p.Objects[in.Obj]
@@ -927,6 +978,10 @@ func runCLI(p *Plan, keepLog bool) *RunResult {
 				useStdin = true
 				stdinBytes = b
 				stdinChunks = in.Chunks
+				stdinKind = in.StdinKind
+				if in.StdinKind != "" {
+					res.Counters.inc("stdin_kind/" + in.StdinKind)
+				}
 				if in.Channel == "stdin-dash" {
 					paths = append(paths, "-")
 				}
@@ -943,7 +998,7 @@ func runCLI(p *Plan, keepLog bool) *RunResult {
 			res.Counters.inc("cli_fault/sel_" + st.SelFault)
 		}
 		args := cliArgs(st, cfgPath, paths)
-		oc := runZlint(args, stdinBytes, stdinChunks, useStdin, sdir)
+		oc := runZlint(args, stdinBytes, stdinChunks, useStdin, stdinKind, sdir)
 		res.Ops++
 		res.Steps += 1 + oc.ChunksWritten
 		res.Counters.add("stdin_chunks_delivered", oc.ChunksWritten)
